@@ -222,7 +222,10 @@ def seg_cache(s):
     if isinstance(s, P.Arc):
         if s.segment_length_hash is None:
             return None
-        return ('A', s.segment_length_hash == hash(s), float(s.segment_length))
+        h = s.segment_length_hash
+        if isinstance(h, tuple):       # repaired variant: (hash, error, min_depth)
+            h = h[0]
+        return ('A', h == hash(s), float(s.segment_length))
     return None
 
 
@@ -256,15 +259,20 @@ def classify_length(cfg, init, prefix, qev):
                 setter_since = ev[0]
     asked = TOLS[qev[1]] if qev[0] == 'qlength' else TOLS['T0']
     if p._length is not None:
-        # the path-level cache answers
-        if setter_since == 'setstart':
-            return 'start-setter-stale-length'
-        if setter_since == 'setend':
-            return 'end-setter-stale-length'
-        if fill_tol != asked:
-            return 'calc-lengths-ignores-tolerance'
-        # filled for the tolerance asked, no setter since: the fill itself used a stale segment
-        # cache, which is still there: fall through to the segment-level analysis
+        # is it the path-level cache that answers?  A new Path of the SAME segment objects
+        # (deep copy, segment caches kept) tells: if it answers differently, the stale value
+        # comes from the path's own _length/_lengths
+        real, _ = ask(copy.deepcopy(p), qev)
+        same, _ = ask(P.Path(*copy.deepcopy(p._segments)), qev)
+        if real != same:
+            if setter_since == 'setstart':
+                return 'start-setter-stale-length'
+            if setter_since == 'setend':
+                return 'end-setter-stale-length'
+            if fill_tol != asked:
+                return 'calc-lengths-ignores-tolerance'
+            return 'unclassified-path-cache'
+        # otherwise a segment cache is the cause: fall through to the segment-level analysis
     e, d = TOLS[qev[1]] if qev[0] == 'qlength' else TOLS['T0']
     for s in copy.deepcopy(p._segments):
         c = seg_cache(s)
@@ -276,6 +284,8 @@ def classify_length(cfg, init, prefix, qev):
             if c[0] == 'A':
                 return 'arc-cache-ignores-tolerance'
             ce, cd = c[2]
+            # a value computed with a LOOSER error reused: the inverted test; otherwise a value
+            # computed with stricter arguments (deeper min_depth / tighter error) is reused
             return 'cubic-cache-error-test-inverted' if ce > e else 'cubic-cache-deeper-min-depth-reused'
     return 'unclassified-length'
 
@@ -407,6 +417,78 @@ def raw_for_coq(o):
     if k == 'qbbox':
         return ('bbox',)
     raise KeyError(k)
+
+
+# ------------------------------------------------- which variant is running
+FLAG_ORDER = ['setter', 'calc', 'cubic', 'arc', 'hash', 'slice', 'rev']
+
+
+def detect_fixes():
+    """probe the implementation with the witness history of each _refuted
+    theorem of Props/C16.v: which of the repaired behaviours does it show?
+    Returns ({flag: bool}, [problems]).  false = the pinned behaviour."""
+    P = impl()
+    from svgpathtools import parse_path
+    saved = P._quad_available
+    P._quad_available = False            # subdivision: tolerances are visible in the values
+    fx, problems = {}, []
+    try:
+        # setters: [length(); start = z] -> length()
+        res = []
+        for which in ('start', 'end'):
+            p = P.Path(build('L'), build('Q'))
+            p.length(error=1e-6)
+            setattr(p, which, PTS['z1'])
+            res.append(canon(p.length(error=1e-6)) == canon(fresh_path(p).length(error=1e-6)))
+        fx['setter'] = res[0]
+        if res[0] != res[1]:
+            problems.append('start and end setters behave differently (start repaired: %s, end repaired: %s)' % tuple(res))
+        # _calc_lengths: a stand-in segment whose length IS the error it is asked with
+        class Probe(object):
+            start, end = 0j, 1 + 0j
+            def length(self, t0=0, t1=1, error=None, min_depth=None):
+                return float(error) + float(min_depth)
+        p = P.Path(Probe())
+        p.length(error=1e-2, min_depth=5)
+        second = p.length(error=1e-3, min_depth=5)
+        third = p.length(error=1e-3, min_depth=7)
+        fx['calc'] = (second == 1e-3 + 5)
+        if fx['calc'] and third != 1e-3 + 7:
+            problems.append('_calc_lengths compares error but not min_depth')
+        # cubic reuse test: loose then tight / tight then loose
+        lo, ti = (1e-2, 5), (1e-6, 5)
+        c = build('C'); c.length(error=lo[0], min_depth=lo[1])
+        loose_then_tight_fresh = canon(c.length(error=ti[0], min_depth=ti[1])) == canon(build('C').length(error=ti[0], min_depth=ti[1]))
+        c = build('C'); tv = c.length(error=ti[0], min_depth=ti[1])
+        tight_then_loose_reused = canon(c.length(error=lo[0], min_depth=lo[1])) == canon(tv)
+        fx['cubic'] = loose_then_tight_fresh
+        if loose_then_tight_fresh and not tight_then_loose_reused:
+            problems.append('CubicBezier.length reuses neither a looser nor a tighter cached value: a variant the model does not have')
+        # arc cache
+        a = build('A'); a.length(error=lo[0], min_depth=lo[1])
+        fx['arc'] = canon(a.length(error=ti[0], min_depth=ti[1])) == canon(build('A').length(error=ti[0], min_depth=ti[1]))
+        # hash
+        x, y = P.Path(P.Line(0, 1 + 1j), P.Line(1 + 1j, 0)), parse_path('M0,0 L1,1 Z')
+        fx['hash'] = (x == y) and hash(x) == hash(y)
+        # slice assignment emptying the path
+        p = P.Path(build('L'), build('C'))
+        try:
+            p[:] = []
+            fx['slice'] = True
+        except IndexError:
+            fx['slice'] = False
+        # reversed()
+        c = build('C'); c.length(error=ti[0], min_depth=ti[1]); c.start = PTS['z1']
+        r = c.reversed()
+        fx['rev'] = canon(r.length(error=ti[0], min_depth=ti[1])) == canon(fresh_copy(r).length(error=ti[0], min_depth=ti[1])) \
+            and r._length_info is not c._length_info
+    finally:
+        P._quad_available = saved
+    return fx, problems
+
+
+def fx_term(fx):
+    return '(mkFx %s)' % ' '.join(coq_bool(fx[k]) for k in FLAG_ORDER)
 
 
 # ---------------------------------------------------------- Coq printing
@@ -625,7 +707,7 @@ Definition S3 : Tol := (qc 1 1000000, 9%Z).
 '''
 
 
-def coq_check_seg(tmp, cfg, scases, tag):
+def coq_check_seg(tmp, cfg, scases, tag, fx):
     """segment-level cases: exact comparison inside Coq"""
     if not scases:
         return [], []
@@ -659,8 +741,9 @@ def coq_check_seg(tmp, cfg, scases, tag):
                 fv = memo[(data, t)]
                 if math.isfinite(fv):
                     rows.append('(%s, %s, %s)' % (nm.sd(data), tn, qc(fv)))
-        pre = PREAMBLE + nm.defs() + '\nDefinition tb : Table :=\n %s.\n' % coq_list(rows)
-        okdef = 'Definition ok (c : segcasety) : nat := check_seg_case tb c.\n'
+        pre = PREAMBLE + 'Definition fx : fixes := %s.\n' % fx_term(fx) + nm.defs() + \
+            '\nDefinition tb : Table :=\n %s.\n' % coq_list(rows)
+        okdef = 'Definition ok (c : segcasety) : nat := check_seg_case fx tb c.\n'
         texts.append(common.CASE_HEADER + pre + okdef +
                      'Definition the_cases : list segcasety :=\n [%s].\n' % ';\n  '.join(terms) +
                      'Eval vm_compute in (run_cases ok the_cases).\n')
@@ -675,7 +758,7 @@ def coq_check_seg(tmp, cfg, scases, tag):
     return fails, errors
 
 
-def coq_check(tmp, cfg, cases, tag):
+def coq_check(tmp, cfg, cases, tag, fx):
     """returns (list of (case index, code), errors)"""
     if not cases:
         return [], []
@@ -694,8 +777,9 @@ def coq_check(tmp, cfg, cases, tag):
         for (data, t), v in tb.items():
             if data in used:
                 rows.append('(%s, %s, %s)' % (nm.sd(data), tol_term(t), qc(v)))
-        pre = PREAMBLE + nm.defs() + '\nDefinition tb : Table :=\n %s.\n' % coq_list(rows)
-        okdef = 'Definition ok (c : casety) : nat := check_case tb c.\n'
+        pre = PREAMBLE + 'Definition fx : fixes := %s.\n' % fx_term(fx) + nm.defs() + \
+            '\nDefinition tb : Table :=\n %s.\n' % coq_list(rows)
+        okdef = 'Definition ok (c : casety) : nat := check_case fx tb c.\n'
         texts.append(common.CASE_HEADER + pre + okdef +
                      'Definition the_cases : list casety :=\n [%s].\n' % ';\n  '.join(terms) +
                      'Eval vm_compute in (run_cases ok the_cases).\n')
@@ -983,6 +1067,7 @@ def seg_depth(tier, cfg):
 
 def seg_jobs(tier):
     jobs = []
+    n = 0
     for cfg in (True, False):
         depth = seg_depth(tier, cfg)
         for kind in ('L', 'Q', 'C', 'A'):
@@ -990,7 +1075,9 @@ def seg_jobs(tier):
             for d in range(1, depth + 1):
                 for ops in itertools.product(ops_k, repeat=d):
                     if ops[-1].startswith('len'):
-                        jobs.append(('seg', cfg, kind, list(ops), kind in ('C', 'A') and d <= 4))
+                        n += 1
+                        jobs.append(('seg', cfg, kind, list(ops),
+                                     kind in ('C', 'A') and (d <= 3 or (d == 4 and (tier != 'quick' or n % 3 == 0)))))
     return jobs
 
 
@@ -1067,6 +1154,13 @@ def run(rep, tier, seed, replay=None):
     with common.Scratch() as tmp:
         info = common.std_static(rep, 'C16', (), (), tmp)
         t_static = time.time() - t_start
+        fx, fx_problems = detect_fixes()
+        rep.cov['implementation_variant'] = {k: ('repaired' if fx[k] else 'pinned') for k in FLAG_ORDER}
+        rep.cov['model_flags'] = fx_term(fx)
+        for pr in fx_problems:
+            rep.violation('C16: the implementation shows a behaviour that is neither the pinned nor the repaired variant '
+                          'of the model: ' + pr, {'kind': 'variant', 'what': pr, 'flags': fx},
+                          found_input=False, key='model-variant-unknown')
         depth = None
         stride_false = case_stride = 1
         if replay:
@@ -1096,7 +1190,8 @@ def run(rep, tier, seed, replay=None):
                     todo.append(('path', True, init, evs, want, BATTERY))
                     if len(h) < depth or (k % stride_false == 0):
                         todo.append(('path', False, init, evs,
-                                     len(h) <= 2 or k % (case_stride * stride_false) == 0, BATTERY))
+                                     len(h) <= 1 or (len(h) == 2 and (tier != 'quick' or k % 2 == 0))
+                                     or k % (case_stride * stride_false) == 0, BATTERY))
             n_rand = 60 if tier == 'quick' else 400
             for i in range(n_rand):
                 init, evs = gen_random_history(rng)
@@ -1130,7 +1225,7 @@ def run(rep, tier, seed, replay=None):
         coq_fail = 0
         n_cases = 0
         for cfg in (True, False):
-            fails, errors = coq_check(tmp, cfg, cases[cfg], 'q%d' % int(cfg))
+            fails, errors = coq_check(tmp, cfg, cases[cfg], 'q%d' % int(cfg), fx)
             n_cases += len(cases[cfg])
             for e in errors:
                 rep.violation('C16 case file failed to evaluate', {'kind': 'cases', 'error': e},
@@ -1147,7 +1242,7 @@ def run(rep, tier, seed, replay=None):
                               found_input=False, key='model-mismatch')
         n_seg_cases = 0
         for cfg in (True, False):
-            fails, errors = coq_check_seg(tmp, cfg, seg_cases[cfg], 'q%d' % int(cfg))
+            fails, errors = coq_check_seg(tmp, cfg, seg_cases[cfg], 'q%d' % int(cfg), fx)
             n_seg_cases += len(seg_cases[cfg])
             for e in errors:
                 rep.violation('C16 case file failed to evaluate', {'kind': 'cases', 'error': e},
@@ -1196,8 +1291,9 @@ def run(rep, tier, seed, replay=None):
                 '_quad_available=True: ALL histories of <= %d events (%d templates, 3 initial paths); '
                 '_quad_available=False: ALL of <= %d events and every %d-th (deterministic stride) of the %d-event ones; '
                 'segment-level: ALL histories of <= %s operations (_quad_available True/False) over %s; '
-                'Coq model comparison: all histories of <= 2 events in both configurations, every %d-th deeper one, '
-                'all random ones'
+                'Coq model comparison: all histories of <= 2 events (quick: every 2nd of the 2-event ones in the '
+                '_quad_available=False configuration), every %d-th deeper one, all random ones; segment histories '
+                'of <= 3 operations, and of 4 (quick: every 3rd)'
                 % (depth, len(ALPHABET), depth - 1, stride_false, depth, '%d/%d' % (seg_depth(tier, True), seg_depth(tier, False)), SEG_OPS, case_stride))
         rep.cov['histories_run'] = {'quad_available_true': n_hist[True], 'quad_available_false': n_hist[False]}
         rep.cov['input_distribution'] = {'event_kinds': op_kinds,
